@@ -316,6 +316,11 @@ class Interp:
             if o.kind == 'val':
                 v = o.val
                 if v[0] == 'lit' and isinstance(v[1], int):
+                    # `as` between integer types is exact on a literal: the value modulo 2^width of the target type, read in the
+                    # target's signedness (truncation, sign- and zero-extension are all this one function of the value)
+                    rng = INT_RANGE.get(hirq.strip_refs(str(e.get('ty') or '')))
+                    if rng is not None and not isinstance(v[1], bool) and not (rng[0] <= v[1] <= rng[1]):
+                        v = ('lit', (v[1] - rng[0]) % (rng[1] - rng[0] + 1) + rng[0])
                     outs.append(Out('val', v, o.st))
                 elif v[0] == 'ctor' and not v[2]:
                     # unit variant cast to integer: discriminant if known
